@@ -39,7 +39,7 @@ class RestoreReadFileSystem:
 
 class RealRestoreReadFileSystem(RestoreReadFileSystem):
     def path_exists(self, path):
-        return os.path.exists(path)
+        return os.path.lexists(path)
 
 
 @six.add_metaclass(ABCMeta)
